@@ -88,12 +88,18 @@ CLAIMED = {
              "pipes are FIFO (assumed)",
         ref="3/C08"),
     "C09": dict(
-        category="exploration",
-        text="Bounded stand-in (no proof obligations yet): every sampler class x {plain, bounds, temperature/non-default mass, "
-             "non-negativity} x save points {0,1,99,100,101,150 steps}: save, load, compare stored state, tuning state, bounds and "
-             "read-outs, then copy the generator states and compare 30 further steps sample for sample.",
-        note="bounded, never counted as proved; the contract-level read-set/round-trip obligations of DESIGN 3/C09 are not built yet",
-        technique="bounded run-time contract evaluation on the real save()/load() (stand-in for the planned read-set / round-trip contracts)",
+        text="Proof for every sampler class (d in {1,2}; any history: every attribute that some method other than __init__ assigns "
+             "is an arbitrary value of its kind, list lengths symbolic): after the real save() and load() -- numpy's .npz round trip "
+             "modelled as 'what is stored is read back as arrays' -- every instance attribute in the statically computed read set of "
+             "take_step / the read-outs / update_directions (every self.<attr> load reachable through method calls in the real AST) is "
+             "present on the reloaded object and equal element-wise: Gibbs/PCA chain fields and all 19 Parameter fields incl. the "
+             "proposal method selected by the limits in force, PCA directions / schedule / history / covariance-if-present / bounds, "
+             "HMC samples / log-probs / step counts / temperature / mass object / every step-size-selector field / bounds / leapfrog "
+             "variant, ensemble walkers / counters / proposal statistics / stretch parameter / retained sample / bounds. Bounded: every "
+             "sampler x configuration x save point, state comparison and 30 identical further steps with copied generator states.",
+        note="the .npz round trip contract is assumed (and exercised for real in the bounded layer); random-generator state is by design "
+             "not persisted (the bounded layer copies it); constants assigned only by the constructor are compared as constructed; "
+             "matrix masses and ChainPool / ParallelTempering persistence are bounded only; floats as reals",
         ref="3/C09"),
     "C10": dict(
         text="Proof, for every number of points: squared-exponential and rational-quadratic kernels equal their documented formula, are "
